@@ -696,6 +696,11 @@ func (s *Server) filterBatchLocked(next jmessages) jmessages {
 			delete(s.call, id)
 			rsp.ch <- req
 			s.log("Received response for callback %q", id)
+		} else if s.allowP && req.M == "" && (req.E != nil || req.R != nil) {
+			// A late, duplicate, or unsolicited reply; discard it rather than
+			// answer with an error the client could mistake for a reply to
+			// one of its own calls.
+			s.log("Discarding response for unknown callback %q", id)
 		} else {
 			keep = append(keep, req)
 		}
